@@ -367,6 +367,95 @@ Proof.
     pose proof (cdiv_spec w (hsf s) ltac:(lia)) as [L _]. nia.
 Qed.
 
+
+(* ---- completeness for encode: every sample position of the plane is written ---- *)
+Lemma acc_app_some a b l : acc_app a b = Some l -> exists la lb, a = Some la /\ b = Some lb /\ l = la ++ lb.
+Proof. destruct a, b; cbn; intros H; try discriminate. injection H as <-. eauto. Qed.
+
+Lemma rows_access_in ptrs f len x n : forall j l k lk,
+  rows_access ptrs n j f len = Some l -> j <= k < j + Z.of_nat n ->
+  row_access ptrs (f k) len = Some lk -> In x lk -> In x l.
+Proof.
+  induction n as [|n IH]; intros j l k lk H Hk Hr Hx; [lia|].
+  cbn [rows_access] in H. apply acc_app_some in H. destruct H as (la & lb & Ha & Hb & ->).
+  apply in_or_app. destruct (Z.eq_dec k j) as [->|Hne].
+  - left. rewrite Hr in Ha. injection Ha as <-. assumption.
+  - right. apply (IH (j + 1) lb k lk); try assumption. lia.
+Qed.
+
+Lemma for_rows_in bound step body x fuel : forall row l r lb,
+  0 < step -> for_rows fuel row bound step body = Some l ->
+  row <= r < bound -> (r - row) mod step = 0 -> body r = Some lb -> In x lb -> In x l.
+Proof.
+  induction fuel as [|fuel IH]; intros row l r lb Hs H Hr Hm Hb Hx; cbn [for_rows] in H.
+  - assert (X : row <? bound = true) by lia. rewrite X in H. discriminate.
+  - assert (X : row <? bound = true) by lia. rewrite X in H.
+    apply acc_app_some in H. destruct H as (la & lr & Ha & Hrest & ->). apply in_or_app.
+    destruct (Z.eq_dec r row) as [->|Hne].
+    + left. rewrite Hb in Ha. injection Ha as <-. assumption.
+    + right. assert (step <= r - row).
+      { pose proof (Z.div_mod (r - row) step ltac:(lia)) as D. rewrite Hm in D.
+        assert (0 < (r - row) / step) by nia. nia. }
+      apply (IH (row + step) lr r lb); try assumption; [lia|].
+      replace (r - (row + step)) with ((r - row) + (-1) * step) by lia. rewrite Z.mod_add by lia. assumption.
+Qed.
+
+Lemma row_access_some e ph r len c : 0 <= r < ph -> 0 <= c < len ->
+  exists lk, row_access (rowptrs (Z.to_nat ph) 0 e) r len = Some lk /\ In (r * e + c) lk.
+Proof.
+  intros Hr Hc. unfold row_access. assert (X : r <? 0 = false) by lia. rewrite X.
+  rewrite rowptrs_nth by lia. rewrite Z2Nat.id by lia. eexists. split; [reflexivity|].
+  apply in_map_iff. exists c. split; [lia|]. apply zrange_In. lia.
+Qed.
+
+Lemma acc_ok_some P a : acc_ok P a -> exists l, a = Some l.
+Proof. destruct a; cbn; [eauto|tauto]. Qed.
+
+Theorem enc_access_complete strides stride i w h s r c : valid_samp s -> valid_dim w -> valid_dim h -> 0 <= i < 3 ->
+  0 <= r < spec_ph i h s -> 0 <= c < spec_pw i w s ->
+  exists l, enc_access strides stride i w h s = Some l /\ In (r * enc_rowstep strides stride (spec_pw i w s) + c) l.
+Proof.
+  intros Hs Hw Hh Hi Hr Hc.
+  destruct (acc_ok_some _ _ (enc_access_safe strides stride i w h s Hs Hw Hh Hi)) as [l El]. exists l. split; [exact El|].
+  destruct (codec_plane_dims i w h s Hs Hw Hh Hi) as (_ & _ & EW & EH & _ & _).
+  destruct (vsf_cases s Hs) as (Ev & _ & Hv). destruct (ph0_facts h s Hs Hh) as (P0 & _ & P1 & P2).
+  unfold enc_access in El. rewrite EW in El.
+  assert (EH' : enc_plane_h i h s = Z.quot (enc_ph0 h (comp_vsamp0 s) * (if i =? 0 then comp_vsamp0 s else 1)) (comp_vsamp0 s)) by reflexivity.
+  rewrite <- EH in Hr. rewrite EH' in Hr. rewrite EH' in El. rewrite P0, Ev in El, Hr.
+  unfold enc_loopstep, enc_copy_n, enc_copy_row, enc_copy_w in El.
+  set (maxv := vsf s) in *. set (ph0 := pad_up h maxv) in *.
+  set (vs := if i =? 0 then maxv else 1) in *.
+  assert (Hvs : vs = maxv \/ vs = 1) by (subst vs; destruct (i =? 0); tauto).
+  assert (Hq : Z.quot (ph0 * vs) maxv = ph0 * vs / maxv) by (apply Z.quot_div_nonneg; nia).
+  pose proof (Z.div_mod ph0 maxv ltac:(lia)) as Dp. rewrite P2 in Dp.
+  (* the iteration that writes row r *)
+  set (row := r / vs * maxv).
+  assert (Hrow : 0 <= row < ph0 /\ row mod maxv = 0 /\ Z.quot (row * vs) maxv = r / vs * vs).
+  { subst row. rewrite Hq in Hr. destruct Hvs as [E|E]; rewrite E in *.
+    - rewrite Z.div_mul in Hr by lia. pose proof (Z.div_mod r maxv ltac:(lia)). pose proof (Z.mod_pos_bound r maxv ltac:(lia)).
+      repeat split; try nia. + apply Z.mod_mul; lia. + rewrite Z.quot_div_nonneg by nia. apply Z.div_mul. lia.
+    - rewrite Z.mul_1_r in Hr. rewrite Z.div_1_r, !Z.mul_1_r.
+      assert (r < ph0 / maxv) by lia. split; [nia|]. split; [apply Z.mod_mul; lia|].
+      rewrite Z.quot_div_nonneg by nia. apply Z.div_mul. lia. }
+  destruct Hrow as (R1 & R2 & R3).
+  set (k := r - r / vs * vs).
+  assert (Hk : 0 <= k < vs) by (subst k; pose proof (Z.div_mod r vs ltac:(lia)); pose proof (Z.mod_pos_bound r vs ltac:(lia)); lia).
+  destruct (row_access_some (enc_rowstep strides stride (spec_pw i w s)) (Z.quot (ph0 * vs) maxv) r (spec_pw i w s) c Hr Hc) as (lk & Elk & Ink).
+  (* the body of that iteration is Some: from safety *)
+  pose proof (jcopy_loop_safe (enc_rowstep strides stride (spec_pw i w s)) (spec_pw i w s) maxv vs ph0 Hv Hvs P1 P2) as SAFE.
+  set (body := fun row0 : Z => rows_access (rowptrs (Z.to_nat (Z.quot (ph0 * vs) maxv)) 0 (enc_rowstep strides stride (spec_pw i w s)))
+                 (Z.to_nat vs) 0 (fun j : Z => Z.quot (row0 * vs) maxv + j) (spec_pw i w s)) in *.
+  assert (Bsome : exists lb, body row = Some lb).
+  { apply (acc_ok_some (in_plane (enc_rowstep strides stride (spec_pw i w s)) (spec_pw i w s) (Z.quot (ph0 * vs) maxv))).
+    subst body. cbv beta. apply rows_access_ok. intros j Hj. rewrite Z2Nat.id in Hj by lia.
+    apply row_access_ok; [lia| |lia]. apply copy_rows_in_plane; try assumption; lia. }
+  destruct Bsome as [lb Elb].
+  apply (for_rows_in ph0 maxv body _ (Z.to_nat ph0) 0 l row lb); try assumption; try lia.
+  - rewrite Z.sub_0_r. exact R2.
+  - apply (rows_access_in _ _ _ _ (Z.to_nat vs) 0 lb k lk Elb); [rewrite Z2Nat.id by lia; lia| |exact Ink].
+    cbv beta. rewrite R3. replace (r / vs * vs + k) with r by (subst k; lia). exact Elk.
+Qed.
+
 (* ---- statements for props/C20.v ---- *)
 Definition copy_loops_safe_statement : Prop :=
   forall strides stride i w h s, valid_samp s -> 0 <= i < ncomp s ->
